@@ -541,11 +541,9 @@ theorem inv_setItem {κ : Nat → String} {s : State} (h : InvK κ s) (o : Nat) 
     | ok sel =>
       simp only []
       obtain ⟨_, hsel⟩ := resolve_ok _ _ _ hres
-      split
-      · exact Kept.refl h
-      · apply Post.mono (inv_setItem_loop h o src sel hsel s ⟨h, Ext.refl κ s, rfl, rfl⟩)
-        intro r s' hw
-        exact hw.kept
+      apply Post.mono (inv_setItem_loop h o src sel hsel s ⟨h, Ext.refl κ s, rfl, rfl⟩)
+      intro r s' hw
+      exact hw.kept
 
 /-! ### reads: `natypes`, `prop(key…)` -/
 
